@@ -1,7 +1,7 @@
 (* Props/C06.v -- property C06: "Schema defaults are reproduced exactly, or rejected when
    the schema is added".  Only the property theorems; models in Algo/Defaults.v and
    Algo/Value.v (mirroring /repo AFTER the fix: commits 9891d21, dc9ac49, 9117497, cd15928,
-   07af100, 31ec69c, 15ce314), proofs in Proofs/DefaultsProofs.v.
+   07af100, 31ec69c, 15ce314, a08c818), proofs in Proofs/DefaultsProofs.v.
 
    Outcomes of the models: ROk = Ok/Some, RErr = Err(InvalidValue)/None, RPanic = a Rust
    panic (unwrap of a missing id, unreachable!()), RFuel = the MODEL ran out of fuel.
@@ -55,19 +55,21 @@ Theorem C06_unit_null_optional : has_default (Some DUnit) (Some JNull) = POption
 Proof. exact unit_null_optional. Qed.
 
 (* (3) C06_default_typed for EVERY kind except untagged enums: a validated default renders to an expression that
-   rustc types at the target type.  [tfrag T g n t] is a decidable condition on the TYPE only (n bounds its depth):
+   rustc types at the target type.  [tfrag T g dok n t] is a decidable condition on the TYPE only (n bounds its depth):
    bool, the twelve known integer types, floats, string, unit, JsonValue, natives; Option, Box, Vec, Set, fixed
    arrays, tuples of any arity, maps, newtypes with any constraints; structs whose members are direct members or ONE
-   flattened String-keyed map, with distinct field and wire names and Default-implementing types for the non-required
-   members (an absent member is rendered `Default::default()`); externally / internally / adjacently tagged enums
-   with distinct non-empty variant identifiers (unit, newtype, tuple incl. one-element, struct variants).
+   flattened String-keyed map, with distinct field and wire names, where an Optional member has a Default-implementing
+   type (absent => `Default::default()`) and a member with its own default has had it validated ([dok]: absent => its
+   own default is rendered, fix a08c818); externally / internally / adjacently tagged enums with distinct non-empty
+   variant identifiers (unit, newtype, tuple incl. one-element, struct variants).
+   [defaults_validated re T dok] is what check_defaults establishes for every property default at finalisation.
    PARTIAL w.r.t. the full statement: untagged enums (output_value may pick an EARLIER variant than the one that
-   validated), flattened struct / Option<struct> members, recursive types (tfrag bounds the type depth) and
-   non-required members whose type has no Default impl (second face of finding C06-F12, E0277). *)
-Theorem C06_default_typed_partial : forall re T g n f t d k,
-  validate_value re T f t d = ROk k -> tfrag T g n t = true ->
+   validated), flattened struct / Option<struct> members, recursive types (tfrag bounds the type depth). *)
+Theorem C06_default_typed_partial : forall re T g dok, defaults_validated re T dok ->
+  forall n f t d k,
+  validate_value re T f t d = ROk k -> tfrag T g dok n t = true ->
   exists e, output_value T n t d = ROk e /\ expr_typed T g e t = true.
-Proof. intros re T g n. exact (tfrag_typed re T g n). Qed.
+Proof. intros re T g dok Hd n. exact (tfrag_typed re T g dok Hd n). Qed.
 
 (* ex C06_default_typed_tuple1_variant_refuted (finding C06-F13, fixed by 15ce314): the former witness is now
    rendered `E::V((3_i64,))`, typed at `V((i64,))`, and denotes the schema default *)
@@ -84,12 +86,16 @@ Theorem C06_default_exact_partial : forall re T n f t d k,
   exists e, output_value T n t d = ROk e /\ exists r, eval_expr T e = Some r /\ approx d r = true.
 Proof. exact efrag_exact. Qed.
 
-(* exactness for structs is REFUTED on the real code (finding C06-F12, open): a member with its own schema default
-   that is absent from the default value is rendered `Default::default()`.  [Known_F12 T e]: e contains such a member. *)
-Theorem C06_nested_default_fill_refuted :
-  exists T t d k e, validate_value re0 T 3 t d = ROk k /\ output_value T 3 t d = ROk e /\ Known_F12 T e /\
-                    e = EStruct (u "Pt") [(FId (u "x"), ENum (JInt 1) (u "i64")); (FId (u "y"), EDefault)].
-Proof. exact nested_default_fill_refuted. Qed.
+(* ex C06_nested_default_fill_refuted (finding C06-F12, fixed by a08c818): Pt{x, y default 7} x {"x":1} now renders
+   `Pt { x: 1_i64, y: 7_i64 }`: typed, no member with its own default is left to `Default::default()`, and the value
+   denoted, {"x":1,"y":7}, is the schema default up to the filled nested default *)
+Theorem C06_nested_default_fill_example :
+  exists e, output_value Tf12 3 2 (JObj [(u "x", JInt 1)]) = ROk e /\
+            e = EStruct (u "Pt") [(FId (u "x"), ENum (JInt 1) (u "i64")); (FId (u "y"), ENum (JInt 7) (u "i64"))] /\
+            expr_typed Tf12 3 e 2 = true /\ expr_any (is_f12 Tf12) e = false /\
+            eval_expr Tf12 e = Some (JObj [(u "x", JInt 1); (u "y", JInt 7)]) /\
+            approx (JObj [(u "x", JInt 1)]) (JObj [(u "x", JInt 1); (u "y", JInt 7)]) = true.
+Proof. exact nested_default_fill_example. Qed.
 
 (* the former refutation witnesses, now regression examples of the repaired behaviour:
    String x 5, Vec<u8> x [300], S3(maxLength 3) x "toolong", IEnum[1,2] x 7, NonZeroU32 x 0 are
@@ -108,9 +114,15 @@ Proof. exact regression_examples. Qed.
 Example C06_nonvacuous_validate : validate_value re0 Tw 3 6 (JArr [JInt 1; JInt 2]) = ROk KSpecific.
 Proof. vm_compute. reflexivity. Qed.
 
+(* a concrete [dok]: the member default validates with fuel 5 *)
+Definition dok0 (t : id) (v : json) : bool :=
+  match validate_value re0 Tf12 5 t v with ROk _ => true | _ => false end.
+Example C06_nonvacuous_dok : defaults_validated re0 Tf12 dok0.
+Proof. intros t dv H. unfold dok0 in H. destruct (validate_value re0 Tf12 5 t dv) eqn:E; try discriminate H. eauto. Qed.
+
 Example C06_nonvacuous_frag :
-  tfrag Tw 3 3 3 = true /\ tfrag Tw 3 3 6 = true /\ tfrag Tw 3 3 7 = true /\ tfrag Tw 3 3 10 = true /\
-  tfrag Tw 3 3 12 = true /\ tfrag Tw 3 3 9 = true /\ efrag Tw 3 3 = true /\ efrag Tw 3 6 = true /\
+  tfrag Tw 3 dok0 3 3 = true /\ tfrag Tw 3 dok0 3 6 = true /\ tfrag Tw 3 dok0 3 7 = true /\ tfrag Tw 3 dok0 3 10 = true /\
+  tfrag Tw 3 dok0 3 12 = true /\ tfrag Tw 3 dok0 3 9 = true /\ tfrag Tf12 3 dok0 3 2 = true /\ efrag Tw 3 3 = true /\ efrag Tw 3 6 = true /\
   validate_value re0 Tw 3 3 (JArr [JInt 3]) = ROk KSpecific.
 Proof. repeat split; vm_compute; reflexivity. Qed.
 
